@@ -291,7 +291,7 @@ func vLockedWorld(kind int, op int) {
 func VerifC07_LockedNew()          { vLockedWorld(0, 0) }
 func VerifC07_LockedAdd()          { vLockedWorld(0, 1) }
 func VerifC07_LockedRemove()       { vLockedWorld(0, 2) }
-func VerifC07T_LockedExchange()    { vLockedWorld(1, 3) }
+func VerifC07T_LockedExchange()    { vNoMul = true; vLockedWorld(1, 3) }
 func VerifC07_LockedSetRelations() { vLockedWorld(1, 4) }
 func VerifC07_LockedRemoveEntity() { vLockedWorld(1, 5) }
 func VerifC07_LockedCopy()         { vLockedWorld(0, 6) }
@@ -345,7 +345,8 @@ type vQSlot struct {
 }
 
 func vQueryInterleavings(steps int) {
-	W := vShapeFor(0)
+	W := vShapePlain(1, 61, 1) // fixed placement: the interleavings are not multiplied by the thorough placements
+	vTighten(W.w)
 	f := NewFilter1[vPos](W.w)
 	fc := NewFilter1[vPos](W.w).Register()
 	uf := NewUnsafeFilter(W.w, W.id[cA])
@@ -435,7 +436,7 @@ func vQueryInterleavings(steps int) {
 }
 
 func VerifC07_QueryInterleavings3()  { vQueryInterleavings(3) }
-func VerifC07T_QueryInterleavings5() { vQueryInterleavings(5) }
+func VerifC07T_QueryInterleavings4() { vNoMul = true; vQueryInterleavings(4) }
 
 // ---- C07-H3: query creations that are rejected (or that register a new component type on
 // the way) never leave a lock bit behind: "unlocked exactly when the last open query has
